@@ -217,7 +217,8 @@ def r16_1(cx):
                             guard_ok = True
     cx.check(ok_alts and idx_ok and guard_ok, 'front-cleanup-count', f, adv.loc(), 'advance(index of the first item with !is_erased, else usize::MAX)',
              fail_detail='the front cleanup does not advance by the index of the first live item: %s (guarded=%s)' % ([show(a)[:60] for a in alts], guard_ok))
-    cx.check(adv.arg(0).kind == 'ref' and m.is_items(adv.arg(0).a), 'front-cleanup-target', f, adv.loc(), 'advances self.items')
+    # (self.items, or the deque parameter of a cleanup written as an associated function that every caller hands self.items)
+    cx.check((adv.arg(0).kind == 'ref' and m.is_items(adv.arg(0).a)) or _items_param(cx, f, adv.arg(0), m), 'front-cleanup-target', f, adv.loc(), 'advances self.items')
 
 
 def r16_2(cx):
